@@ -35,12 +35,14 @@ Definition Iltb (x y : I.type) : bool := Fltb (I.midpoint x) (I.midpoint y).
   nopp := I.neg;
   nleb := Ileb; nltb := Iltb; nofZ := I.fromZ prec |}.
 
-(* exp with a guard against astronomically small results: for x < -1400, exp x lies in
-   [0, 2^-2000] (exp(-1400) = 2^-2019.7...), which is returned as the enclosure; without the guard
-   a later `1 - exp x` would align mantissas over millions of bits *)
+(* exp with a guard against astronomically small results: when x + 1400 is certainly negative, exp x lies in
+   [0, exp(-1400)] and that interval (upper end: the upper end of the enclosure of exp(-1400), about 2^-2019.8) is
+   returned; without the guard a later `1 - exp x` would align mantissas over millions of bits. The guard is built
+   from interval operations only, so that its soundness (Reflect.Iexp_correct) follows from the library's own
+   correctness lemmas. *)
 Definition Iexp (x : I.type) : I.type :=
-  match F.cmp (I.upper x) (Fdy (-1400) 0) with
-  | Xlt => I.bnd F.zero (Fdy 1 (-2000))
+  match I.sign_strict (I.add prec x (I.fromZ prec 1400)) with
+  | Xlt => I.meet (I.lower_extent (I.exp prec (I.fromZ prec (-1400)))) (I.upper_extent I.zero)
   | _ => I.exp prec x
   end.
 
